@@ -95,7 +95,7 @@ func (mc *MemoryChannel) GetOffsetRange(runId string) (int64, int64) {
 func (mc *MemoryChannel) GetRdb(runId string) (int64, int64) {
 	mc.mux.RLock()
 	defer mc.mux.RUnlock()
-	if runId != mc.runId || mc.rdb == nil || !mc.rdb.replayable {
+	if runId != mc.runId || !mc.rdbReplayableLocked() {
 		return -1, -1
 	}
 	return mc.rdb.left, mc.rdb.size
@@ -114,7 +114,7 @@ func (mc *MemoryChannel) NewReader(offset Offset) (ChannelReader, error) {
 
 	aof := mc.indexContinuousAofLocked(offset.Offset)
 	if aof == nil {
-		if mc.rdb != nil && mc.rdb.replayable && offset.Offset <= mc.rdb.left {
+		if mc.rdbReplayableLocked() && offset.Offset <= mc.rdb.left {
 			first := mc.rdb.firstSegment()
 			if first == nil {
 				return nil, os.ErrNotExist
@@ -420,14 +420,29 @@ func (mc *MemoryChannel) rangeLocked() (int64, int64) {
 		return left, right
 	}
 
-	if mc.rdb != nil && mc.rdb.replayable {
+	if mc.rdbReplayableLocked() {
 		return mc.rdb.left, mc.rdb.left
 	}
 	return -1, -1
 }
 
+// rdbReplayableLocked reports whether the cached snapshot can be offered : all of its bytes
+// are present and the log that continues it has not been collected. Once the log no longer
+// starts at the snapshot's offset a reader positioned right after the snapshot could not go
+// on, it would be handed the snapshot again.
+func (mc *MemoryChannel) rdbReplayableLocked() bool {
+	if mc.rdb == nil || !mc.rdb.replayable {
+		return false
+	}
+	if len(mc.aofSegs) == 0 {
+		return true
+	}
+	start := mc.continuousAofStartIndexLocked()
+	return start >= 0 && mc.aofSegs[start].left <= mc.rdb.left
+}
+
 func (mc *MemoryChannel) inRangeLocked(offset int64) bool {
-	if mc.rdb != nil && mc.rdb.replayable && offset <= mc.rdb.left {
+	if mc.rdbReplayableLocked() && offset <= mc.rdb.left {
 		return true
 	}
 	return mc.indexContinuousAofLocked(offset) != nil
